@@ -24,6 +24,8 @@ from pyvc.interp import Obj, exc_matches
 from pyvc.lib.stdlib import choice
 from props.C11 import _accessors, _entry_points
 
+from props._contracts import lookup_contract_scenarios, scn_lookup_contract  # noqa: F401
+
 PROPERTY = 'C05'
 
 # (convention, builder kwargs, extra variables, kinds to select on)
@@ -49,6 +51,7 @@ def scenarios(tier):
         for policy in ('error', 'drop'):
             for k in (1, 2, 3):
                 out.append({'name': f'extract_points[{conv}, {k} points, {policy}]', 'fn': 'scn_points', 'kwargs': {'ci': ci, 'k': k, 'policy': policy}})
+    out += lookup_contract_scenarios()        # the contract of get_index_for_point the point scenarios rely on, re-verified here
     return out
 
 
